@@ -3,7 +3,7 @@
 and writes /verif/lean/PFV/Generated.lean.  It refuses (exit 3, message on stderr) rather than
 guesses when a source shape is not the one it knows; the caller maps that to a broken proof
 obligation.  Usage: translate.py [--repo /repo] [--out FILE] [--check] """
-import re, sys, os, struct, argparse
+import re, sys, os, struct, argparse, json
 
 KNOWN_OPS = ["Int","BinInt","BinInt1","BinInt2","Long","Long1","Long4","String","BinString",
  "ShortBinString","BinBytes","ShortBinBytes","BinBytes8","ByteArray8","NextBuffer","ReadOnlyBuffer",
@@ -154,7 +154,10 @@ def extract(repo):
     for n in R["all_safe"] + R["all_unsafe_extra"]:
         if n not in KNOWN_MUTS: raise Refuse("unknown mutator kind %s" % n)
     # C14: every in-place mutation site works on a stack cell (bound by self.peek() / self.pop()), and
-    # Stack::push registers the cell it creates; reset and Drop release the registered cells
+    # Stack::push registers the cell it creates; reset and Drop release the registered cells.
+    # A refusal in this section concerns C14 only: it is recorded (R["heap_refused"]) instead of aborting the
+    # translation, so that the other properties' obligations are still checked.
+    heap_refused = []
     so = open(os.path.join(repo, "src/generator/stack_ops.rs")).read().split("\n")
     sites = []
     for i, l in enumerate(so):
@@ -166,7 +169,8 @@ def extract(repo):
             if re.search(r"Some\(%s\)\s*=\s*self\.peek\(\)" % var, window): origin = "peek"
             elif re.search(r"Some\(%s\)\)?\s*=\s*\(?self\.pop\(\)" % var, window) or re.search(r"\(Some\(\w+\), Some\(%s\)\) = \(self\.pop\(\), self\.pop\(\)\)" % var, window): origin = "pop"
             if origin is None:
-                raise Refuse("in-place mutation at stack_ops.rs:%d on `%s`, which is not bound by self.peek()/self.pop()" % (i + 1, var))
+                heap_refused.append("in-place mutation at stack_ops.rs:%d on `%s`, which is not bound by self.peek()/self.pop()" % (i + 1, var))
+                origin = "unknown"
             sites.append((i + 1, var, origin))
     other = []
     for root, _, files in os.walk(os.path.join(repo, "src")):
@@ -176,15 +180,20 @@ def extract(repo):
                 if "borrow_mut()" in txt:
                     other.append(fn)
     if other:
-        raise Refuse("borrow_mut() outside stack_ops.rs / stack.rs: %s" % other)
-    stk2 = stk
+        heap_refused.append("borrow_mut() outside stack_ops.rs / stack.rs: %s" % other)
+    stk2 = strip_comments(stk)
     push = re.search(r"pub fn push\(&mut self, value: StackObject\) \{(.*?)\n    \}", stk2, re.S)
-    if not push or "self.cells.push(Rc::downgrade(" not in push.group(1):
-        raise Refuse("Stack::push does not register the new cell in the arena")
+    if not push or not re.search(r"self\.cells\.push\(", push.group(1)) or "Rc::downgrade(" not in push.group(1):
+        heap_refused.append("Stack::push does not register the new cell in the arena")
+    elif re.search(r"\b(if|match|while|for|return)\b|\?", push.group(1)):
+        heap_refused.append("Stack::push registers the new cell only conditionally (control flow in its body)")
     rst = re.search(r"pub fn reset\(&mut self\) \{(.*?)\n    \}", stk2, re.S)
     drp = re.search(r"impl Drop for Stack \{(.*?)\n\}", stk2, re.S)
     if not rst or "release_cells()" not in rst.group(1) or not drp or "release_cells()" not in drp.group(1):
-        raise Refuse("Stack::reset / Drop do not release the arena cells")
+        heap_refused.append("Stack::reset / Drop do not release the arena cells")
+    for m in re.finditer(r"(?:\.inner|stack)\.push\(", "\n".join(so)):
+        pass
+    R["heap_refused"] = heap_refused
     R["mut_sites"] = sites
     # module table facts
     data = open(os.path.join(repo, "data/stdlib_complete.txt"), "rb").read()
@@ -227,6 +236,8 @@ def render(R):
     o.append("def allMutatorsUnsafeExtra : List String := %s" % lean_list(['"%s"' % n for n in R["all_unsafe_extra"]]))
     o.append("\n/-- in-place mutation sites of `stack_ops.rs` (line, receiver, how the receiver was obtained): all of them\nwork on a cell taken from the simulated stack, i.e. on an arena cell; `Stack::push` registers every cell it\ncreates and `reset`/`Drop` release them (checked syntactically by the translator) -/")
     o.append("def mutationSites : List (Nat × String × String) := %s" % lean_list(['(%d, "%s", "%s")' % x for x in R["mut_sites"]]))
+    o.append("\n/-- the translator's syntactic C14 checks all passed (push registers unconditionally, reset/Drop release,\nno `borrow_mut()` elsewhere, every site bound by peek/pop) -/")
+    o.append("def heapSitesChecked : Bool := %s" % ("true" if not R["heap_refused"] else "false"))
     o.append("\n/-- `data/stdlib_complete.txt`: number of lines; every line non-empty printable ASCII without quote/backslash -/")
     o.append("def modulesCount : Nat := %d\ndef modulesWellFormed : Bool := %s" % (R["mods_n"], "true" if R["mods_ok"] else "false"))
     o.append("\nend Gen\nend PFV\n")
@@ -237,8 +248,17 @@ def main():
     ap.add_argument("--repo", default="/repo")
     ap.add_argument("--out", default="/verif/lean/PFV/Generated.lean")
     a = ap.parse_args()
+    ap_report = os.path.join(os.path.dirname(os.path.abspath(a.out)), "..", ".lake", "translate_report.json")
     try:
-        txt = render(extract(a.repo))
+        R = extract(a.repo)
+        txt = render(R)
+        try:
+            os.makedirs(os.path.dirname(ap_report), exist_ok=True)
+            json.dump(dict(heap_refused=R["heap_refused"]), open(ap_report, "w"))
+        except OSError:
+            pass
+        for msg in R["heap_refused"]:
+            sys.stderr.write("translate: C14-REFUSED: %s\n" % msg)
     except Refuse as e:
         sys.stderr.write("translate: REFUSED: %s\n" % e)
         sys.exit(3)
